@@ -405,7 +405,7 @@ def gen_program(rng, case, focus=None, allow_infeasible=True):
         if partial is False or (partial is None and rng.random() < 0.3):
             return None, [(i, j) for i in range(p.wells.shape[0]) for j in range(p.wells.shape[1])]
         sel, idx, shape = rand_selector(rng, p)
-        if len(idx) > 1 and rng.random() < 0.2:
+        if len(idx) > 1 and rng.random() < 0.35:
             # a slice of a slice as the step's reference (the recipe must act on exactly the sub-selection)
             with M.oracle():
                 r = subslice(rng, p, sel, idx, shape)
@@ -417,6 +417,8 @@ def gen_program(rng, case, focus=None, allow_infeasible=True):
 
     kinds = ['t_cc', 't_cp', 't_cp', 't_cp', 't_pc', 't_pp', 'remove', 'fill', 'newc', 'dilute', 'solution',
              'solution_c', 'solution_from', 'fill_big']
+    if case.get('prop') == 'C08':
+        kinds += ['remove']
     if focus == 'remove':
         kinds += ['remove'] * 5 + ['t_cp'] * 2
     if focus == 'plates':
